@@ -470,6 +470,9 @@ class Frame(Widget, WidgetContainerMixin, typing.Generic[BodyWidget, HeaderWidge
         if head:
             combinelist.append((head, "header", self.focus_part == "header"))
             depends_on.append(self.header)
+        elif self.header is not None:
+            # frame_top_bottom() asked the header for its rows: depend on it although nothing of it is drawn
+            depends_on.append(self.header)
 
         if ftrim + htrim < maxrow:
             body = self.body.render((maxcol, maxrow - ftrim - htrim), focus and self.focus_part == "body")
@@ -486,8 +489,12 @@ class Frame(Widget, WidgetContainerMixin, typing.Generic[BodyWidget, HeaderWidge
         if foot:
             combinelist.append((foot, "footer", self.focus_part == "footer"))
             depends_on.append(self.footer)
+        elif self.footer is not None:
+            depends_on.append(self.footer)
 
-        return CanvasCombine(combinelist)
+        canv = CanvasCombine(combinelist)
+        canv.set_depends(depends_on)
+        return canv
 
     def keypress(
         self,
